@@ -34,7 +34,10 @@ void harness(void) {
 	r = ec_point_proj_add(&A, VF_ALIAS ? &A : &B, curve);
 	if (r == 0 && VF_EC_PP_INF(&A)) VF_CANARY("C02 add: infinity result reachable");
 	if (r == 0 && vf_n_mult_digit3 == 1) VF_CANARY("C02 add: doubling path reachable");
+#if !VF_ALIAS
 	if (r == 0 && vf_n_cmp == 1 && vf_n_mult_digit3 == 0) VF_CANARY("C02 add: general addition path reachable");
+	if (r == 0 && vf_n_cmp == 2 && vf_cmp_r1 != 0) VF_CANARY("C02 add: opposite points path reachable");
+#endif
 #elif defined(VF_FN_sub)
 	r = ec_point_proj_sub(&A, VF_ALIAS ? &A : &B, curve);
 #elif defined(VF_FN_add_mix)
